@@ -7,6 +7,7 @@ import (
 	"io"
 	"os"
 	"path/filepath"
+	"sync"
 
 	"github.com/libsv/go-bt/v2"
 	"github.com/libsv/go-bt/v2/bscript"
@@ -91,6 +92,7 @@ func init() {
 		}
 	})
 	jb := mon.Kind(p, "bytes", c01JudgeBytes)
+	jc := mon.Kind(p, "readers", c01JudgeReaders)
 
 	p.Run = func(c *mon.Ctx) {
 		nvec, err := refcodec.SelfCheck(verifTestdata())
@@ -451,6 +453,21 @@ func init() {
 			}
 			js(c, &c01Struct{Shape: gen.RandShape(c.Rand(i), ropts), Tag: "random"})
 		}
+
+		// ------------------------------------------------------------ several readers of one value
+		// Serialising, hashing and cloning are read-only: goroutines that only
+		// read one transaction must all see what a single reader sees.
+		c.Phase("concurrent-readers")
+		nc := uint64(60)
+		if c.Thorough {
+			nc = 2000
+		}
+		for i := uint64(0); i < nc; i++ {
+			if !c.Case(i) {
+				continue
+			}
+			jc(c, &c01Struct{Shape: gen.RandShape(c.Rand(i), gen.ShapeOpts{MinIns: 1, MaxIns: 4, MaxOuts: 4, AllowNil: true}), Tag: "concurrent-readers"})
+		}
 	}
 
 	p.Floor = func(a *mon.Agg) string {
@@ -619,6 +636,78 @@ func c01FromLib(tx *bt.Tx) (*refcodec.Tx, string) {
 		}
 	}
 	return t, ""
+}
+
+// c01JudgeReaders: 6 goroutines x 40 rounds of Bytes / ExtendedBytes / TxID /
+// Clone().Bytes() on ONE transaction; every result is compared with the
+// reference encoding. (No verdict depends on timing: a difference is a wrong
+// result whenever it shows; the run is bounded by its iteration count.)
+func c01JudgeReaders(c *mon.Ctx, in *c01Struct) {
+	s := in.Shape
+	if s.Ambiguous() {
+		return
+	}
+	for i := range s.Ins {
+		if len(s.Ins[i].TxID) != 32 {
+			return
+		}
+	}
+	c.Eval(1)
+	ref := c01Ref(s)
+	std, ext := refcodec.Encode(ref, false, nil), refcodec.Encode(ref, true, nil)
+	id := refcodec.TxID(std)
+	tx := s.Build()
+	var wg sync.WaitGroup
+	var mu sync.Mutex
+	bad := ""
+	note := func(what string) {
+		mu.Lock()
+		if bad == "" {
+			bad = what
+		}
+		mu.Unlock()
+	}
+	for g := 0; g < 6; g++ {
+		wg.Add(1)
+		go func(g int) {
+			defer wg.Done()
+			defer func() {
+				if r := recover(); r != nil {
+					note(fmt.Sprintf("panic in a reader: %v", r))
+				}
+			}()
+			for k := 0; k < 40; k++ {
+				switch (g + k) % 4 {
+				case 0:
+					if b := tx.Bytes(); !bytes.Equal(b, std) {
+						note("Bytes() = " + clip(b))
+					}
+				case 1:
+					if b := tx.ExtendedBytes(); !bytes.Equal(b, ext) {
+						note("ExtendedBytes() = " + clip(b))
+					}
+				case 2:
+					if got := tx.TxID(); got != id {
+						note("TxID() = " + got)
+					}
+				case 3:
+					if b := tx.Clone().Bytes(); !bytes.Equal(b, std) {
+						note("Clone().Bytes() = " + clip(b))
+					}
+				}
+			}
+		}(g)
+	}
+	wg.Wait()
+	if bad != "" {
+		c.Violationf("C01:concurrent-readers-differ", "six goroutines only reading one transaction: %s; reference %s / id %s", bad, clip(std), id)
+		return
+	}
+	if b := tx.ExtendedBytes(); !bytes.Equal(b, ext) {
+		c.Violationf("C01:concurrent-readers-differ", "after concurrent reading the transaction serialises to %s, reference %s", clip(b), clip(ext))
+		return
+	}
+	c.Count("concurrent-readers:agree")
 }
 
 // c01Elements: every input and output on its own, through Input.ReadFrom,
